@@ -149,3 +149,9 @@ package method_evaluator
 //@ func (*ti/eval/method_evaluator.topLevelMethodStrategy).getRequiredValues
 //@   inline 6 1
 //@   ensures[C04] isnil(result2) ==> result1 != nil
+
+//@ # ---- C16: a call with an explicit receiver never finds a private method ----
+//@ func (*ti/eval/method_evaluator.instanceMethodStrategy).getRequiredValues
+//@   sitesonly
+//@   inline 2 1
+//@   callsite[C16] GetMethodT a_isPrivate == false
